@@ -254,7 +254,7 @@ var replyCode = map[string]string{"ack": "ack", "item-not-found": "inf", "unexpe
 // ---------------------------------------------------------------- receiver
 
 type rop struct {
-	kind    byte // d c C r w (w: the local side writes + flushes on the same connection)
+	kind    byte // d c C r w b (w: the local side writes + flushes; b: SetReadBuffer(n))
 	data    []byte
 	known   bool
 	seq     int
@@ -270,11 +270,14 @@ func (o rop) tok() string {
 		return fmt.Sprintf("d:%s:%d:%s", common.B(o.known), o.seq, common.HexS(o.payload))
 	case 'r':
 		return fmt.Sprintf("r:%d", o.n)
+	case 'b':
+		return fmt.Sprintf("b:%d:4", o.n)
 	}
 	return "c"
 }
 
-func runRecv(r *common.Run, maxbuf int, carrier string, ops []rop, class string) {
+func runRecv(r *common.Run, maxbuf0 int, carrier string, ops []rop, class string) {
+	maxbuf := maxbuf0
 	p, err := newPeer()
 	if err != nil {
 		r.Notes = append(r.Notes, "setup: "+err.Error())
@@ -283,7 +286,7 @@ func runRecv(r *common.Run, maxbuf int, carrier string, ops []rop, class string)
 	defer p.stop()
 	var toks, obs []string
 	line := func() []string {
-		return []string{fmt.Sprintf("%s recv %d %s", r.Prop, maxbuf, common.Join(toks, ",")), "#carrier=" + carrier}
+		return []string{fmt.Sprintf("%s recv %d %s", r.Prop, maxbuf0, common.Join(toks, ",")), "#carrier=" + carrier}
 	}
 	fail := func(why string) {
 		r.Hist["problem"]++
@@ -372,6 +375,18 @@ func runRecv(r *common.Run, maxbuf int, carrier string, ops []rop, class string)
 				unread += len(dec)
 				expSeq = (expSeq + 1) % 65536
 			}
+		case 'b':
+			// the limit is the REQUESTED one, raised only to the negotiated block size (4 here)
+			conn.SetReadBuffer(o.n)
+			maxbuf = o.n
+			if maxbuf < 0 {
+				maxbuf = 0
+			}
+			if maxbuf > 0 && maxbuf < 4 {
+				maxbuf = 4
+			}
+			toks = append(toks, o.tok())
+			obs = append(obs, "b")
 		case 'w':
 			done := make(chan error, 1)
 			go func() {
@@ -477,7 +492,7 @@ func runRecv(r *common.Run, maxbuf int, carrier string, ops []rop, class string)
 	if !bytes.HasPrefix(accepted, got) {
 		r.Fail("deliver", "bytes-differ-from-acknowledged-payloads", line(), fmt.Sprintf("read %x, acknowledged payloads decode to %x", got, accepted))
 	}
-	l := fmt.Sprintf("recv %d %s", maxbuf, common.Join(toks, ","))
+	l := fmt.Sprintf("recv %d %s", maxbuf0, common.Join(toks, ","))
 	r.Line(l, common.Join(obs, ","))
 	if wrote && !(len(obs) > 0 && strings.HasPrefix(obs[len(obs)-1], "PROBLEM")) {
 		// both directions on one connection: the stanzas the local writer produced must be
@@ -1213,4 +1228,159 @@ func runLateReplies(r *common.Run) {
 		r.Fail("serve-continues", "serve-stalled-after-late-reply:ibb", lines, "after late / duplicate replies to the open, data and close requests of a finished stream the serve loop no longer answers")
 	}
 	r.Case("late-replies", true, "late")
+}
+
+// runListener: listener life cycle on the accepting side against incoming open
+// requests.  ops: L Listen, K Listener.Close, A Accept (called in a goroutine),
+// O an <open/> from the peer.  Observed per op as in the driver's `lsn` line;
+// open-iff-accepted is judged from what the INITIATOR is told.
+func runListener(r *common.Run, ops []string, class string) {
+	p, err := newPeer()
+	if err != nil {
+		return
+	}
+	defer p.stop()
+	var ln *ibb.Listener
+	listening := false
+	type acc struct {
+		c   net.Conn
+		err error
+	}
+	accCh := make(chan acc, 64)
+	waiting := 0      // Accept calls that have not returned
+	pendingOpen := -1 // index (in obs) of an open whose reply is still in the handler
+	pendingID := ""
+	nOpen := 0
+	obs := make([]string, 0, len(ops))
+	var toks []string
+	line := func() []string { return []string{r.Prop + " lsn " + common.Join(toks, ",")} }
+	// collect n Accept results (they are caused by the op at index idx)
+	collect := func(idx, n int) {
+		for i := 0; i < n; i++ {
+			select {
+			case a := <-accCh:
+				waiting--
+				if a.err == nil && a.c != nil {
+					obs[idx] += "+c"
+				} else {
+					obs[idx] += "+e"
+				}
+			case <-time.After(watchdog):
+				obs[idx] += "+STALL"
+				r.Fail("open-iff-accepted", "accept-does-not-return", line(), "an Accept call that should have ended did not return")
+				return
+			}
+		}
+	}
+	reply := func(id string) string {
+		if !p.pump(func() bool { return p.replies[id] != "" }) {
+			return "STALL"
+		}
+		if p.replies[id] == "ack" {
+			return "res"
+		}
+		if p.replies[id] == "not-acceptable" {
+			return "na"
+		}
+		return "other:" + p.replies[id]
+	}
+	for _, op := range ops {
+		if pendingOpen >= 0 && op[0] == 'O' {
+			continue // the serve loop is inside the hand-off: a further request would just queue
+		}
+		toks = append(toks, op)
+		idx := len(obs)
+		switch op[0] {
+		case 'L':
+			ln = p.h.Listen(p.rs.S)
+			listening = true
+			obs = append(obs, "l")
+		case 'K':
+			if ln == nil || pendingOpen >= 0 {
+				// (closing while the handler may or may not have reached its hand-off yet cannot be
+				// ordered from outside: not generated)
+				toks = toks[:len(toks)-1]
+				continue
+			}
+			obs = append(obs, "k")
+			ln.Close()
+			n := waiting
+			collect(idx, n)
+			listening = false
+			if pendingOpen >= 0 {
+				obs[pendingOpen] = reply(pendingID)
+				pendingOpen = -1
+			}
+		case 'A':
+			if ln == nil {
+				toks = toks[:len(toks)-1]
+				continue
+			}
+			obs = append(obs, "a")
+			l := ln
+			waiting++
+			go func() { c, err := l.Accept(); accCh <- acc{c, err} }()
+			switch {
+			case !listening:
+				collect(idx, 1)
+			case pendingOpen >= 0:
+				collect(idx, 1)
+				obs[pendingOpen] = reply(pendingID)
+				pendingOpen = -1
+			default:
+				time.Sleep(200 * time.Microsecond) // let it reach its select
+			}
+		case 'O':
+			nOpen++
+			id := fmt.Sprintf("o%d", nOpen)
+			sid := fmt.Sprintf("L%d", nOpen)
+			toks[len(toks)-1] = fmt.Sprintf("O%d", nOpen)
+			p.feed(fmt.Sprintf(`<iq xmlns="jabber:client" type="set" id="%s" from="%s" to="me@example.net/h"><open xmlns="http://jabber.org/protocol/ibb" sid="%s" block-size="16" stanza="iq"/></iq>`, id, peerJID, sid))
+			switch {
+			case !listening:
+				rep := reply(id)
+				obs = append(obs, rep)
+				if rep == "res" {
+					r.Fail("open-iff-accepted", "open-accepted-without-a-listener", line(), "the initiator was told the stream is open although no listener is registered (none yet, or the listener was closed): nobody can accept it")
+				}
+			case waiting > 0:
+				obs = append(obs, reply(id))
+				collect(idx, 1)
+			default:
+				obs = append(obs, "res") // provisional: the reply leaves the handler when the hand-off ends
+				pendingOpen, pendingID = idx, id
+			}
+		}
+	}
+	// wind down: accept a stream that is still being handed over, end the waiting Accepts
+	if pendingOpen >= 0 {
+		toks = append(toks, "A")
+		idx := len(obs)
+		obs = append(obs, "a")
+		l := ln
+		waiting++
+		go func() { c, err := l.Accept(); accCh <- acc{c, err} }()
+		collect(idx, 1)
+		obs[pendingOpen] = reply(pendingID)
+		pendingOpen = -1
+	}
+	if ln != nil && waiting > 0 {
+		toks = append(toks, "K")
+		idx := len(obs)
+		obs = append(obs, "k")
+		ln.Close()
+		collect(idx, waiting)
+		if pendingOpen >= 0 {
+			obs[pendingOpen] = reply(pendingID)
+		}
+	}
+	if !p.sync() {
+		r.Fail("serve-continues", "serve-stalled-after-listener-history", line(), "the serve loop no longer answers")
+	}
+	l := "lsn " + common.Join(toks, ",")
+	r.Line(l, common.Join(obs, ","))
+	if os.Getenv("VERIF_DEBUG") != "" {
+		fmt.Fprintln(os.Stderr, l, "=>", common.Join(obs, ","))
+	}
+	r.Case(l, true, class)
 }
